@@ -3,13 +3,14 @@
 # Like seedtest.sh but leaves /repo alone: the seeded patch is applied in a scratch worktree of /repo's HEAD and the
 # checks are pointed at it with VERIF_REPO; evidence of these runs goes to a scratch directory (never to /verif/evidence).
 set -u
-N=$1; S=/verif/seeded/$N; shift
+V=$(cd "$(dirname "$0")/.." && pwd)
+N=$1; S=$V/seeded/$N; shift
 W=$(mktemp -d /tmp/seedwt_XXXX)
 cd /repo && git worktree add -q --detach "$W/wt" HEAD || exit 2
 trap 'cd /repo; git worktree remove --force "$W/wt" 2>/dev/null; rm -rf "$W"' EXIT
 cd "$W/wt"
 if ! git apply "$S/patch.diff" 2>/dev/null; then echo "PATCH DOES NOT APPLY: $N"; exit 3; fi
-cd /verif
+cd $V
 for P in "$@"; do
   out=$(VERIF_REPO="$W/wt" VERIF_EVID="$W/evid" ./check "$P" --tier ${TIER:-quick} 2>&1); rc=$?
   nv=$(echo "$out" | grep -c '^VIOLATION')
